@@ -192,8 +192,8 @@ static std::string gen_tunnel(uint64_t seed, uint64_t idx, bool thorough) {
     int stackfill = r.chance(0.6) ? 0xA5 : (int[]){0x00, 0x00, 0xFF, 0x01}[r.below(4)];
     int port = r.chance(0.3) ? (int)(int[]){1025, 17221, 20000, 40000, 65535}[r.below(5)] : 0;
     int addr = r.chance(0.3) ? (int)r.range(1, 3) : 0;  // destination MAC / IP address variants (multicast bit, bytes >= 0x80, octets 0 and 255)
-    o.line(strf("cfg scen=tunnel addr=%d port=%d longnames=%d argorder=%d stackfill=%d udp=%d fd=%d tscf=%d count=%d o0=%d ethpad=%d read0=%.2f clkgran=%llu sched=%s lat=%llu:%llu cost=%llu:%llu qcap=%zu tend=%llu rseed=0x%llx skew0=%lld skew1=%lld",
-                addr, port, (int)r.chance(0.3), (int)r.coin(), stackfill, udp, fd, tscf, count, (int)r.chance(0.3), (int)(!udp && r.chance(0.4)), read0, (unsigned long long)clkgran, sched_str(r).c_str(), (unsigned long long)lat_lo, (unsigned long long)lat_hi,
+    o.line(strf("cfg scen=tunnel env=%d addr=%d port=%d longnames=%d argorder=%d stackfill=%d udp=%d fd=%d tscf=%d count=%d o0=%d ethpad=%d read0=%.2f clkgran=%llu sched=%s lat=%llu:%llu cost=%llu:%llu qcap=%zu tend=%llu rseed=0x%llx skew0=%lld skew1=%lld",
+                (int)r.chance(0.25), addr, port, (int)r.chance(0.3), (int)r.coin(), stackfill, udp, fd, tscf, count, (int)r.chance(0.3), (int)(!udp && r.chance(0.4)), read0, (unsigned long long)clkgran, sched_str(r).c_str(), (unsigned long long)lat_lo, (unsigned long long)lat_hi,
                 (unsigned long long)r.range(50, 500), (unsigned long long)r.range(500, 20000), qcap, (unsigned long long)tend,
                 (unsigned long long)r.next(), (long long)big_skew(r), (long long)big_skew(r)));
     for (auto &f : frames) o.line(f);
@@ -609,8 +609,8 @@ static std::string gen_c18(uint64_t seed, uint64_t idx, bool thorough) {
     if (backlog) lstack = 128;
     // what a never-written local variable reads: mostly 0xA5 (a wild value), sometimes zero or small values (what a real, used stack tends to hold)
     int stackfill = r.chance(0.6) ? 0xA5 : (int[]){0x00, 0x00, 0xFF, 0x01}[r.below(4)];
-    o.line(strf("cfg scen=%s argorder=%d stackfill=%d udp=%d fd=%d tscf=%d count=%d mtt=%d cantxq=%d lstack=%d o0=%d ethpad=%d sched=%s lat=%llu:%llu cost=%llu:%llu qcap=%zu tend=%llu drain=%llu quiet=%llu rseed=0x%llx skew0=%lld skew1=%lld skew2=%lld",
-                scen.c_str(), (int)r.coin(), stackfill, udp, fd, tscf, count, mtt, cantxq, lstack, (int)r.chance(0.35), (int)(!udp && r.chance(0.3)), sched_str(r).c_str(), (unsigned long long)r.range(1000, 50000),
+    o.line(strf("cfg scen=%s env=%d argorder=%d stackfill=%d udp=%d fd=%d tscf=%d count=%d mtt=%d cantxq=%d lstack=%d o0=%d ethpad=%d sched=%s lat=%llu:%llu cost=%llu:%llu qcap=%zu tend=%llu drain=%llu quiet=%llu rseed=0x%llx skew0=%lld skew1=%lld skew2=%lld",
+                scen.c_str(), (int)r.chance(0.25), (int)r.coin(), stackfill, udp, fd, tscf, count, mtt, cantxq, lstack, (int)r.chance(0.35), (int)(!udp && r.chance(0.3)), sched_str(r).c_str(), (unsigned long long)r.range(1000, 50000),
                 (unsigned long long)r.range(50000, 1000000), (unsigned long long)r.range(50, 500), (unsigned long long)r.range(500, 20000), qcap,
                 (unsigned long long)tend, (unsigned long long)drain, (unsigned long long)t2, (unsigned long long)rseed, (long long)r.range(0, 20000000) - 10000000,
                 (long long)r.range(0, 20000000) - 10000000, (long long)r.range(0, 20000000) - 10000000));
